@@ -11,6 +11,8 @@
 //   eq X Y | eqres          (directives for the judge, echoed)
 // output per command:  cmd <line> / res ok [ret v] | res exn <class> / st ... (one per pool object) / endst
 #define VH_PRIVATE_ACCESS
+#include <unistd.h>
+#include <sys/wait.h>
 #include "vh_common.hh"
 #define private public
 #define protected public
@@ -654,7 +656,16 @@ int main(int argc, char** argv) {
     Toks tk(got ? line : std::string("case"));
     std::string first = tk.more() ? tk.next() : "";
     if (!got || first == "case") {
-      if (open) { int rc = run_case(dom, cur); std::cout << "end\n"; std::cout.flush(); if (rc) return rc; }
+      if (open) {
+        // every case runs in its own process: a crash (or heap corruption) cannot leak into the next case
+        std::cout.flush();
+        pid_t pid = fork();
+        if (pid == 0) { alarm(120); int rc = run_case(dom, cur); std::cout.flush(); _exit(rc); }
+        int status = 0; waitpid(pid, &status, 0);
+        if (WIFSIGNALED(status)) std::cout << "crashed signal " << WTERMSIG(status) << "\n";
+        else if (WEXITSTATUS(status) != 0) { std::cout << "end\n"; std::cout.flush(); return WEXITSTATUS(status); }
+        std::cout << "end\n"; std::cout.flush();
+      }
       if (!got) break;
       std::string id = tk.next(); dom = tk.next(); cur.clear(); open = true;
       std::cout << "case " << id << " " << dom << "\n";
